@@ -1437,22 +1437,24 @@ impl Context {
                             }
                             BinaryOpcode::Compare => Ok(zero),
                             BinaryOpcode::Mod => {
-                                let e = self.div(v_lhs, v_rhs).unwrap();
-                                let q = self.floor(e).unwrap();
+                                // `modulo` is `rem_euclid`, so the result is
+                                // lhs - rhs * e with e = lhs.div_euclid(rhs),
+                                // which is locally constant.  Build `e` the way
+                                // `f32::div_euclid` does: truncate the
+                                // quotient, then step away from zero if the
+                                // remainder (`lhs % rhs`) is negative, i.e. if
+                                // lhs < 0 and lhs is not a multiple of rhs.
+                                let d = self.div(v_lhs, v_rhs).unwrap();
+                                let fl = self.floor(d).unwrap();
+                                let ce = self.ceil(d).unwrap();
+                                let neg = self.less_than(d, zero).unwrap();
+                                let q =
+                                    self.if_nonzero_else(neg, ce, fl).unwrap();
 
-                                // XXX
-                                // (we don't actually have %, so hack it from
-                                // `modulo`, which is actually `rem_euclid`)
-                                // ???
-                                let m = self.modulo(q, v_rhs).unwrap();
-                                let cond = self.less_than(q, zero).unwrap();
-                                let offset = self
-                                    .if_nonzero_else(cond, v_rhs, zero)
-                                    .unwrap();
-                                let m = self.sub(m, offset).unwrap();
-
-                                // Torn from the div_euclid implementation
-                                let outer = self.less_than(m, zero).unwrap();
+                                let m = self.modulo(v_lhs, v_rhs).unwrap();
+                                let lhs_neg =
+                                    self.less_than(v_lhs, zero).unwrap();
+                                let outer = self.and(lhs_neg, m).unwrap();
                                 let inner =
                                     self.less_than(zero, v_rhs).unwrap();
                                 let qa = self.sub(q, 1.0).unwrap();
